@@ -246,6 +246,14 @@ func c17Tier(tier string) (enum, pkg, lifecycle, seqs int) {
 func c17CheckInert(c *core.Ctx, state string, recv reflect.Value, cs CallSpec, results []reflect.Value, isStack, isCond bool, trail []string) bool {
 	desc := map[string]any{"state": state, "calls": trail}
 	initialising := cs.Method == "Marshal" || cs.Method == "Init"
+	if state == "init-cond" && cs.Method == "Free" {
+		// an Init()-only Condition is initialised (and writable): Free must release it
+		cd := recv.Elem().Interface().(stackage.Condition)
+		if !cd.IsZero() || cd.IsInit() || (len(results) == 1 && !results[0].IsNil()) {
+			c.Violatef("Free:not-zero:init-only-condition", desc, "Free on an Init()-only Condition: result %s IsZero=%v IsInit=%v", ResultDesc(results), cd.IsZero(), cd.IsInit())
+			return false
+		}
+	}
 	if state == "init-cond" || state == "nil-aux" || state == "aux" {
 		return true
 	}
@@ -405,13 +413,22 @@ func c17Lifecycle(c *core.Ctx, r *core.Rng) {
 		}
 	case 1: // Stack.Free
 		s := NewStack(Kinds[r.Intn(5)], 0).Push(1, nil, "x")
+		switch r.Intn(4) {
+		case 0:
+			s.Reset() // empty
+		case 1:
+			s.SetValidityPolicy(func(...any) error { return fmt.Errorf("never valid") }) // initialised but "invalid"
+		case 2:
+			s.SetErr(fmt.Errorf("pending error"))
+		}
 		ro := r.Bool()
 		if ro {
 			s.SetReadOnly(true)
 		}
+		lenBefore := s.Len()
 		err := s.Free()
 		if ro {
-			if err == nil || !s.IsInit() || s.IsZero() || s.Len() != 3 {
+			if err == nil || !s.IsInit() || s.IsZero() || s.Len() != lenBefore {
 				c.Violatef("Free:read-only", map[string]any{"ro": true}, "Free on a read-only Stack: err=%v IsInit=%v Len=%d", err, s.IsInit(), s.Len())
 				return
 			}
@@ -421,15 +438,31 @@ func c17Lifecycle(c *core.Ctx, r *core.Rng) {
 		}
 		c.Count("lifecycle.free.stack")
 		c.NontrivialStr(fmt.Sprintf("free-stack|%v", ro))
-	default: // Condition.Free
+	default: // Condition.Free — on complete, partially assembled, Init()-only and re-initialised Conditions alike
 		cd := stackage.Cond("k", stackage.Eq, "v")
+		variant := r.Intn(6)
+		switch variant {
+		case 1:
+			cd.Init()
+		case 2:
+			cd.Init()
+			cd.SetKeyword("k").SetOperator(stackage.Eq)
+		case 3:
+			cd = stackage.Cond("k", stackage.Eq, nil)
+		case 4:
+			cd.Free()
+			cd.Init()
+		case 5:
+			cd.SetValidityPolicy(func(...any) error { return fmt.Errorf("never valid") })
+		}
+		c.Count(fmt.Sprintf("lifecycle.free.condition.variant%d", variant))
 		ro := r.Bool()
 		if ro {
 			cd.SetReadOnly(true)
 		}
 		err := cd.Free()
 		if ro {
-			if err == nil || !cd.IsInit() || cd.Keyword() != "k" {
+			if err == nil || !cd.IsInit() {
 				c.Violatef("Free:read-only:cond", map[string]any{"ro": true}, "Free on a read-only Condition: err=%v IsInit=%v", err, cd.IsInit())
 				return
 			}
